@@ -48,6 +48,34 @@ CLAIMED["C16"] = dict(cat="proof", ref="DESIGN.md §5 C16, §12",
         "normalisation, time.mktime under TZ=UTC, Context.create_decimal/scaleb, uuid.UUID are trusted; float division int(a/b) modelled as integer "
         "division (validated at the carry points by the run); model==implementation observed by correspondence",
    tech="Lean 4 proof (omega over the full ranges; bit-level lemmas for two's complement) + correspondence through logical schemas")
+CONT_NOTE = ("compression libraries are external: theorems hold for every codec with decompress(compress x) = x (checked on every payload of the run); "
+             "JSON text of the schema in the header is handled by json.loads/dumps (trusted); block *grouping* is not compared (c04_partition_independent "
+             "shows it does not matter); sizes below 2^63; model==implementation observed by correspondence")
+CLAIMED["C04"] = dict(cat="proof", ref="DESIGN.md §5 C04, §12",
+   text="Lean theorems c04_roundtrip (any records, any sound codec, sync interval, marker, validator: flush then read = normal forms, normal end), "
+        "c04_partition_independent (records do not depend on block grouping), c04_header_roundtrip (metadata map and marker read back exactly). "
+        "Implementation: files written on BytesIO / real files / write-only non-seekable output, read from read-only sequential input, all codecs and "
+        "exact-fill intervals, compared byte-for-byte with the model's prediction, parsed by an independent parser, re-grouped and re-encoded.",
+   note=CONT_NOTE, tech="Lean 4 proof (writer invariant + reader over any block sequence) + byte-level correspondence of whole files")
+CLAIMED["C05"] = dict(cat="proof", ref="DESIGN.md §5 C05, §12",
+   text="Lean theorems c05_writer_layout (every history yields header ++ blocks in the specification's layout holding exactly the submitted records), "
+        "c05_reader_accepts (any block partition incl. empty blocks, any sound codec), c05_tiling (block infos contiguous from header end to file end, counts "
+        "and payloads exact), c05_is_avro. Implementation: own files through an independent parser (incl. after append), files of an independent writer "
+        "(chunked / negative-count header maps, codec key absent) through reader and block_reader, shipped fixtures, is_avro on all short strings.",
+   note=CONT_NOTE + "; known finding F16 (non-UTF-8 metadata value rejected)", tech="Lean 4 proof + independent Python layout parser/writer against the implementation")
+CLAIMED["C06"] = dict(cat="proof", ref="DESIGN.md §5 C06, §12",
+   text="Lean theorems c06_truncation (any prefix of the block area yields exactly the first j blocks' records and ends normally only on a block "
+        "boundary), c06_boundary, c06_sync (altered marker after block i: records of blocks <= i then ValueError), c06_schemaless_prefix (= c03_prefix). "
+        "Implementation: every byte offset of generated files (all codecs) and 52 alterations of every marker, through reader (seekable and sequential) "
+        "and block_reader, compared with the statement and with the model's reader.",
+   note=CONT_NOTE + "; what a corrupted *payload* does is outside the property", tech="Lean 4 proof by induction over a ghost block list + exhaustive cut enumeration against the implementation")
+CLAIMED["C07"] = dict(cat="proof", ref="DESIGN.md §5 C07, §12",
+   text="Lean theorems c07_history (invariant over every finite history of write / failed write / flush / block copy), c07_flush_reads_back, "
+        "c07_failed_write_contributes_nothing, c07_header_never_changes. Implementation: random histories incl. failing writes at every field, "
+        "write_block from donor files of every codec, reopen-for-append with arbitrary arguments; after every flush the stream is read back and the "
+        "header compared; final stream compared with the model's prediction.",
+   note=CONT_NOTE + "; reopen-for-append is modelled as resuming from the same stream (arguments ignored) and tied by correspondence only; two live writers on one stream not covered",
+   tech="Lean 4 invariant proof over operation histories + history correspondence")
 PENDING = {}
 
 def main():
